@@ -468,6 +468,74 @@ def converter_case(ctx, k, tmp):
         global_uri_converter.remove(Conv)
 
 
+def follow_failure_case(ctx, k, tmp):
+    """a well-formed document refers into another one that is broken: following the reference fails and leaves no entry for
+    the broken document — and nothing else either: once the other document has been repaired on disk, following the same
+    reference of the same loaded model reaches its object (single and many, XMI and JSON)"""
+    from pyecore import ecore as E
+    from pyecore.resources import ResourceSet, URI
+    from pyecore.resources.json import JsonResource
+    rng = common.sub_rng(ctx.seed, 'C18', 'follow-failure', k)
+    fmt = 'xmi' if k % 2 == 0 else 'json'
+    d = os.path.join(tmp, f'ff{k}')
+    os.makedirs(d, exist_ok=True)
+    pk = E.EPackage('ff', f'http://verif/c18/ff{k}', 'ff')
+    A = E.EClass('A')
+    pk.eClassifiers.append(A)
+    A.eStructuralFeatures.extend([E.EAttribute('name', E.EString), E.EReference('one', A), E.EReference('many', A, upper=-1),
+                                  E.EReference('kids', A, upper=-1, containment=True)])
+
+    def rs():
+        r = ResourceSet()
+        r.resource_factory['json'] = lambda uri: JsonResource(uri)
+        r.metamodel_registry[pk.nsURI] = pk
+        return r
+    w = rs()
+    pa, pb = os.path.join(d, f'a.{fmt}'), os.path.join(d, f'b.{fmt}')
+    ra, rb = w.create_resource(URI(pa)), w.create_resource(URI(pb))
+    a, b = A(name='a'), A(name='b')
+    b.kids.extend([A(name='b0'), A(name='b1')])
+    ra.append(a); rb.append(b)
+    a.one = b.kids[1]
+    a.many.extend([b, b.kids[0]])
+    ra.save(); rb.save()
+    good = open(pb, 'rb').read()
+    cut = rng.randint(max(1, len(good) // 3), len(good) - 2)
+    broken = good[:cut] if rng.random() < .6 else good.replace(b'name', b'nosuch', 1)
+    open(pb, 'wb').write(broken)
+    rset = rs()
+    try:
+        la = rset.get_resource(URI(pa)).contents[0]
+    except Exception:
+        ctx.count('follow-failure/holder-did-not-load')
+        return
+    which = rng.choice(['one', 'many'])
+    first = None
+    try:
+        _ = (la.one if which == 'one' else la.many[0]).name
+        ctx.count('follow-failure/broken-document-loaded-anyway')
+        return
+    except Exception as e:
+        first = type(e).__name__
+    ctx.evaluations += 1
+    ctx.count(f'follow-failure/{fmt}/{which}')
+    ctx.nontriv(('follow-failure', k))
+    rep = {'case': k, 'kind': 'follow-failure', 'format': fmt}
+    if any(os.path.basename(str(key)) == os.path.basename(pb) for key in rset.resources):
+        ctx.violate({'clause': 'trace-after-failure', 'format': fmt, 'what': 'resources', 'followed': True},
+                    f'following a reference into a broken {fmt} document failed ({first}) and left an entry for it: {sorted(map(str, rset.resources))}', rep)
+        return
+    open(pb, 'wb').write(good)
+    try:
+        got = (la.one.name, [x.name for x in la.many])
+    except Exception as e:
+        got = f'raised {type(e).__name__}: {str(e)[:60]}'
+    if got != ('b1', ['b', 'b0']):
+        ctx.violate({'clause': 'other-resource-changed', 'format': fmt, 'trigger': 'none', 'followed': True},
+                    f'a loaded {fmt} model followed a reference into a broken document ({first}); the document was then repaired, and '
+                    f'following the references of the same model gives {got}', rep)
+
+
 def ecore_illtyped_case(ctx, k, tmp):
     """.ecore documents whose references name an element of the wrong kind — an `eOpposite` that names a class, an `eType`
     that names a feature, a supertype that names a feature: the load raises, or what it returns is typed as a metamodel is
@@ -700,6 +768,7 @@ def run(ctx):
                 ecore_opposite_case(ctx, h, tmp)
                 converter_case(ctx, h, tmp)
                 ecore_illtyped_case(ctx, h, tmp)
+                follow_failure_case(ctx, h, tmp)
     finally:
         shutil.rmtree(tmp, ignore_errors=True)
     ctx.assumptions += ['termination of lxml / json parsing itself is trusted (watchdog only)',
